@@ -241,6 +241,25 @@ def replayB (c : Cfg) (evs : List ObsB) (diag : List (Nat × Bool × Bool)) : St
         break
     | _, _ => pure ()
     let mut nxt := stepB c st o.ev
+    -- exit decision: did the implementation leave its main loop where the model stays, or the converse?
+    match o.ev, getKV o.obs "L", nxt with
+    | .react s, some lv, some st' =>
+      let modelLeaves := st'.pcB s != .loop
+      if modelLeaves != (lv = "1") then
+        diffs := diffs.push s!"{i} exit event={repr o.ev} observed-leave={lv} model-leave={modelLeaves} D={st.a.rx s}"
+        let D := (st.a.rx s).getD []
+        let nb := st.nbDone s + (D.filter fun d => !c.forever d).length
+        if lv = "1" then
+          -- adopt: the run leaves its loop, cancelling what the implementation cancelled
+          let K := ((getKV o.obs "K").bind parseNats).getD []
+          match stepA c st.a (.react s true (K.filter fun k => k ∈ liveChildren c st.a s)) with
+          | some a' => nxt := some (exitLoop c { st with nbDone := setAt st.nbDone s nb } s .success a')
+          | none => nxt := none
+        else
+          match stepA c st.a (.react s false []) with
+          | some a' => nxt := some { st with a := a', nbDone := setAt st.nbDone s nb }
+          | none => nxt := none
+    | _, _, _ => pure ()
     if nxt.isNone then
       match o.ev with
       | .tick d =>
